@@ -98,6 +98,8 @@ def _expand(arg):
                 try:
                     os.close(r)
                     try:
+                        if hasattr(d, "after_fork"):
+                            d.after_fork()      # asyncio's running-loop registry is keyed by pid
                         res = _child_result(d, c)
                     except BaseException as e:      # noqa
                         import traceback
@@ -178,7 +180,8 @@ def bfs(factory, depth, ctx=None, workers=None, fork=True, max_states=None, obse
                         res.stats[k] = max(res.stats.get(k, 0), v) if k.startswith("max_") else res.stats.get(k, 0) + v
                     h2 = history + [choice]
                     for sig, what in viol[pre:]:
-                        if sig not in res.violations:
+                        old = res.violations.get(sig)
+                        if old is None or (len(h2), repr(h2)) < (len(old[1]), repr(old[1])):
                             res.violations[sig] = (what, h2)
                     if obs is not None and len(res.samples) < 5 and level >= min(2, depth - 1):
                         res.samples.append({"history": h2, "observed": obs})
